@@ -763,11 +763,14 @@ class ParameterFilter:
     def match_indexes(self, indexes: IndexDict) -> bool:
         myindex = "A=" + self.name
         if self.is_not_defined:
-            return not bool(indexes[myindex])
+            return any(v is False for v in indexes[myindex])
 
-        subindexes = create_subindexes(indexes, myindex)
+        subindexes = {
+            k: [v for v in vs if v is not False]
+            for (k, vs) in create_subindexes(indexes, myindex).items()
+        }
 
-        if not subindexes:
+        if not subindexes or not subindexes.get(None):
             return False
 
         for child in self.children:
@@ -952,7 +955,9 @@ class ICalendarFile(File):
                             try:
                                 yield v.params[segments[1][2:]].encode("utf-8")
                             except KeyError:
-                                pass
+                                # an instance of the property without the
+                                # parameter (what is-not-defined looks for)
+                                yield False
                     else:
                         raise AssertionError(f"segments: {segments!r}")
             else:
